@@ -44,7 +44,7 @@ deriving DecidableEq, Repr
 /-- F3 = d58a058, F4 = 80f2f4f, F5 = 193fdcf are applied in /repo; F35 (proposed_fixes/F35.diff) is not:
 when it is, set the fourth field to `true` (the ONE line to change) and mark F35 fixed in
 known_findings/C09.json. -/
-def Cfg.current : Cfg := ⟨true, true, true, false⟩
+def Cfg.current : Cfg := ⟨true, true, true, true⟩
 /-- the writer before those commits (kept for the regression witnesses of `Props/C09`). -/
 def Cfg.unrepaired : Cfg := ⟨false, false, false, false⟩
 def Cfg.repaired : Cfg := ⟨true, true, true, true⟩
